@@ -391,6 +391,22 @@ def loadForm (fs : Fields) (mime : Option String) (pairs : List (String × Strin
   | some .urlEncoded => extractParams fs pairs
   | _ => .error 400
 
+/-- `MultipartBody`: a `Content-Type` header is mandatory, must be
+`multipart/form-data` and carry a `boundary` parameter (`multer::parse_boundary`). -/
+def loadMultipart (mime : Option String) (hasBoundary : Bool) : Except Nat Unit :=
+  match mime with
+  | none => .error 400
+  | some m => if BodyCT.ofMime m == some .multipart && hasBoundary then .ok () else .error 400
+
+/-- `UntypedBody` / `StreamingBody`: the media type is not looked at. -/
+def loadBytes (_mime : Option String) : Except Nat Unit := .ok ()
+
+/-- the media type an extractor documents for the request body, from the
+declaration: `TypedBody` takes the endpoint's `content_type` (default JSON),
+`MultipartBody` and `UntypedBody` fix their own — however many other
+extractors the handler has. -/
+def documentedBodyCT : BodyCT → String := BodyCT.mime
+
 /-! ## Responses -/
 
 /-- the typed response kinds of handler.rs. -/
